@@ -18,7 +18,7 @@ import (
 type C06Op struct {
 	Op  string `json:"op"`  // unused | unused-cli (coca refactor -m <empty config> -p dir) | noise
 	Dir int    `json:"dir"` // which project directory
-	// ArgForm: 0 absolute path, 1 relative to the working directory, 2 "./"-prefixed, 3 trailing slash
+	// ArgForm: 0 absolute path, 1 relative to the working directory, 2 "./"-prefixed, 3 trailing slash, 4 through a symbolic link
 	ArgForm int `json:"arg_form,omitempty"`
 	// SameApp: reuse the RemoveUnusedImportApp value created for this directory earlier in the process
 	SameApp bool `json:"same_app,omitempty"`
@@ -28,6 +28,8 @@ type C06Proc struct {
 	Ops []C06Op `json:"ops"`
 	// TmpOtherFS: the process runs with $TMPDIR on another file system than the project
 	TmpOtherFS bool `json:"tmp_other_fs,omitempty"`
+	// Schedule: map-iteration schedule of the process (the ground truth holds under every order)
+	Schedule *sim.Schedule `json:"schedule,omitempty"`
 }
 
 type C06Scenario struct {
@@ -83,7 +85,7 @@ func (C06) Generate(t *tape.Tape, tier string) interface{} {
 		}
 		form := 0
 		if t.Bool(1, 3) {
-			form = t.Int(1, 3)
+			form = t.Int(1, 4)
 		}
 		same := kind == "unused" && t.Bool(1, 3)
 		first.Ops = append(first.Ops, C06Op{Op: kind, Dir: d, ArgForm: form, SameApp: same})
@@ -109,6 +111,11 @@ func (C06) Generate(t *tape.Tape, tier string) interface{} {
 		sc.Procs = append(sc.Procs, second)
 	}
 	sc.CwdIgnore = t.Bool(1, 3)
+	for i := range sc.Procs {
+		if t.Bool(1, 3) {
+			sc.Procs[i].Schedule = &sim.Schedule{Tail: []string{"seeded", "reverse", "rotate"}[t.Pick(3)], Seed: t.Seed64()}
+		}
+	}
 	return sc
 }
 
@@ -207,6 +214,10 @@ func (C06) Run(ctx *sim.RunCtx, data json.RawMessage) (*sim.Outcome, error) {
 	judgeTruth := map[int][]gen.ImportFile{}
 	for pi, p := range sc.Procs {
 		proc := &sim.Proc{Schedule: sim.Canonical(), Cwd: ctx.Dir, TmpOtherFS: p.TmpOtherFS}
+		if p.Schedule != nil {
+			proc.Schedule = *p.Schedule
+			out.Faults["map-perm"]++
+		}
 		if p.TmpOtherFS {
 			out.Faults["tmpdir-on-other-fs"]++
 		}
@@ -228,6 +239,14 @@ func (C06) Run(ctx *sim.RunCtx, data json.RawMessage) (*sim.Outcome, error) {
 				dirArg = fmt.Sprintf("./proj%d", op.Dir)
 			case 3:
 				dirArg = dirs[op.Dir] + "/"
+			case 4:
+				// the project directory is reached through a symbolic link (current -> releases/v3)
+				link := filepath.Join(ctx.Dir, fmt.Sprintf("current%d", op.Dir))
+				os.Remove(link)
+				if err := os.Symlink(dirs[op.Dir], link); err == nil {
+					dirArg = link
+					out.Faults["directory-named-through-symlink"]++
+				}
 			}
 			if op.ArgForm != 0 {
 				out.Faults["arg-form"]++
